@@ -511,7 +511,7 @@ pub fn child_args_from(args: &[String]) -> Option<ChildArgs> {
     })
 }
 
-fn process_cpu_ms() -> u64 {
+pub fn process_cpu_ms() -> u64 {
     unsafe {
         let mut ru: libc::rusage = std::mem::zeroed();
         libc::getrusage(libc::RUSAGE_SELF, &mut ru);
